@@ -36,6 +36,10 @@ def main():
     except ImportError:  # pragma: no cover
         from contextlib import nullcontext as prefer_pure_python_imports
 
+    if os.environ.get("VERIF_CH_DEBUG"):
+        from crosshair.util import set_debug
+
+        set_debug(True)
     out = {"file": path, "fn": fn_name, "state": None, "messages": []}
     with prefer_pure_python_imports():
         modname = os.path.splitext(os.path.basename(path))[0]
